@@ -1,8 +1,8 @@
 /-
-  C17 — the type-definition skeleton (names, kinds, fields, argument lists, type references,
-  implements, union members, enum values; no descriptions, directives, deprecations, defaults):
-  the reference parser `Spec/SdlParse.lean` reads the token sequence of an exported skeleton type
-  as the definition `describe` requires.
+  C17 — the type-definition skeleton (names, kinds, descriptions, fields, argument lists, type
+  references, implements, union members, enum values, input fields; no directive applications,
+  deprecations, default values): the reference parser `Spec/SdlParse.lean` reads the token
+  sequence of an exported skeleton type as the definition `describe` requires.
 -/
 import AGV.Model.Sdl
 import AGV.Spec.SdlParse
@@ -20,10 +20,17 @@ def typeDepth : PType → Nat
   | .named _ _ => 0
   | .listOf t _ => typeDepth t + 1
 
-/-- what follows an item in the token stream of an exported skeleton: nothing, a Name, `)` or `}` -/
+/-- `Description?` -/
+def descToks : Option Text → List Tok
+  | none => []
+  | some d => [.str d]
+
+/-- what follows an item in the token stream of an exported skeleton: nothing, a description, a
+    Name, `)`, `}` or `]` -/
 inductive TokEnd : List Tok → Prop
   | nil : TokEnd []
   | name (n r) : TokEnd (.name n :: r)
+  | str (v r) : TokEnd (.str v :: r)
   | rpar (r) : TokEnd (.punct ')' :: r)
   | rbrace (r) : TokEnd (.punct '}' :: r)
   | rbrack (r) : TokEnd (.punct ']' :: r)
@@ -51,12 +58,10 @@ theorem typeDepth_lt (t : PType) : typeDepth t < (typeToks t).length := by
   | named n nl => simp [typeDepth, typeToks]
   | listOf t nl ih => simp [typeDepth, typeToks]; omega
 
-
 -- ------------------------------------------------------------------ the skeleton
 
-/-- no description, no deprecation, no directive application -/
+/-- no deprecation, no directive application (a description is allowed) -/
 structure PlainAttrs (a : Attrs) : Prop where
-  desc : a.desc = none
   dep : a.dep = .no
   dirs : a.dirs = []
 
@@ -70,7 +75,8 @@ structure SkelIv (x : InputVal) : Prop where
   default : x.default = none
   attrs : PlainAttrs x.a
 
-def ivToks (x : InputVal) : List Tok := .name x.name :: .punct ':' :: typeToks x.ty
+def ivCore (x : InputVal) : List Tok := .name x.name :: .punct ':' :: typeToks x.ty
+def ivToks (x : InputVal) : List Tok := descToks x.a.desc ++ ivCore x
 
 theorem dDirs_plain (o : Opts) (ho : o.federation = false) (a : Attrs) (h : PlainAttrs a) : dDirs o a = [] := by
   simp [dDirs, dDeprecated, dFed, ho, h.dep, h.dirs]
@@ -86,23 +92,38 @@ theorem constDirs_noAt (ts : List Tok) (h : ∀ r, ts ≠ .punct '@' :: r) : con
 theorem TokEnd.noAt {ts : List Tok} (h : TokEnd ts) : ∀ r, ts ≠ .punct '@' :: r := by
   intro r e; cases h <;> cases e
 
+/-- `pDesc` on an optional description followed by a Name -/
+theorem pDesc_descToks (d : Option Text) (n : Text) (r : List Tok) :
+    pDesc (descToks d ++ .name n :: r) = (d, .name n :: r) := by
+  cases d <;> rfl
+
 theorem pInputValue_toks (o : Opts) (ho : o.federation = false) (x : InputVal) (hx : SkelIv x) (rest : List Tok)
     (h : TokEnd rest) : pInputValue (ivToks x ++ rest) = some (dIv o x, rest) := by
   have ht := pType_toks x.ty ((typeToks x.ty ++ rest).length + 1) rest
     (by have := typeDepth_lt x.ty; simp; omega) h
   have hd := constDirs_noAt rest h.noAt
-  simp only [pInputValue, pDesc, ivToks, List.cons_append, ht]
-  cases h <;> simp [hd, dIv, hx.default, hx.attrs.desc, dDirs_plain o ho _ hx.attrs]
-
+  simp only [pInputValue, ivToks, ivCore, List.append_assoc, List.cons_append, pDesc_descToks, ht]
+  cases h <;> simp [hd, dIv, hx.default, dDirs_plain o ho _ hx.attrs]
 
 def ivsToks (xs : List InputVal) : List Tok := xs.flatMap ivToks
 
-theorem ivToks_end (x : InputVal) (r : List Tok) : TokEnd (ivToks x ++ r) := TokEnd.name _ _
+/-- an item starts with a description or a Name -/
+inductive ItemHead : List Tok → Prop
+  | name (n r) : ItemHead (.name n :: r)
+  | str (v r) : ItemHead (.str v :: r)
+
+theorem ItemHead.tokEnd {ts} (h : ItemHead ts) : TokEnd ts := by cases h <;> constructor
+
+theorem descToks_head (d : Option Text) (n : Text) (r : List Tok) : ItemHead (descToks d ++ .name n :: r) := by
+  cases d <;> constructor
+
+theorem ivToks_head (x : InputVal) (r : List Tok) : ItemHead (ivToks x ++ r) := by
+  simp only [ivToks, ivCore, List.append_assoc, List.cons_append]; exact descToks_head _ _ _
 
 theorem ivsToks_end (xs : List InputVal) (r : List Tok) (h : TokEnd r) : TokEnd (ivsToks xs ++ r) := by
   cases xs with
   | nil => simpa [ivsToks] using h
-  | cons x xs => simp only [ivsToks, List.flatMap_cons, List.append_assoc]; exact ivToks_end _ _
+  | cons x xs => simp only [ivsToks, List.flatMap_cons, List.append_assoc]; exact (ivToks_head _ _).tokEnd
 
 /-- `InputValueDefinition+` followed by the closing token -/
 theorem pInputValues_toks (o : Opts) (ho : o.federation = false) (close : Char) (hc : close = ')' ∨ close = '}')
@@ -128,8 +149,15 @@ theorem pInputValues_toks (o : Opts) (ho : o.federation = false) (close : Char) 
       | nil => simp
       | cons y ys =>
         have := ih (by simp) (fun z hz => hxs z (List.mem_cons_of_mem _ hz)) g (by simp at hg ⊢; omega)
-        simp only [ivsToks, List.flatMap_cons, List.append_assoc, ivToks, List.cons_append, List.map_cons] at this
-        simp [ivToks, this]
+        simp only [ivsToks, List.flatMap_cons, List.append_assoc, List.map_cons] at this ⊢
+        have hh := ivToks_head y (List.flatMap ivToks ys ++ .punct close :: rest)
+        generalize ivToks y ++ (List.flatMap ivToks ys ++ .punct close :: rest) = T at this hh ⊢
+        cases hh <;> simp [this]
+
+theorem ivsToks_length (xs : List InputVal) : xs.length ≤ (ivsToks xs).length := by
+  induction xs with
+  | nil => simp
+  | cons x xs ih => simp [ivsToks, ivToks, ivCore] at ih ⊢; omega
 
 -- ------------------------------------------------------------------ fields
 
@@ -139,10 +167,12 @@ structure SkelField (f : FieldDef) : Prop where
   attrs : PlainAttrs f.a
   args : ∀ a ∈ f.args, SkelIv a
 
-def fieldToks (o : Opts) (f : FieldDef) : List Tok :=
+def fieldCore (o : Opts) (f : FieldDef) : List Tok :=
   .name f.name ::
     (if f.args.isEmpty then [] else .punct '(' :: ivsToks (sorted o.sortedArgs (·.name) f.args) ++ [.punct ')']) ++
     .punct ':' :: typeToks f.ty
+
+def fieldToks (o : Opts) (f : FieldDef) : List Tok := descToks f.a.desc ++ fieldCore o f
 
 theorem sorted_mem {α : Type} (on : Bool) (nm : α → Text) (xs : List α) (x : α) : x ∈ sorted on nm xs ↔ x ∈ xs := by
   unfold sorted; split <;> simp [List.mem_mergeSort]
@@ -156,11 +186,6 @@ theorem sorted_ne_nil {α : Type} (on : Bool) (nm : α → Text) (xs : List α) 
   rw [e] at this
   exact h (List.length_eq_zero_iff.mp this.symm)
 
-theorem ivsToks_length (xs : List InputVal) : xs.length ≤ (ivsToks xs).length := by
-  induction xs with
-  | nil => simp
-  | cons x xs ih => simp [ivsToks, ivToks] at ih ⊢; omega
-
 theorem pField_toks (o : Opts) (ho : o.federation = false) (f : FieldDef) (hf : SkelField f) (rest : List Tok)
     (h : TokEnd rest) : pField (fieldToks o f ++ rest) = some (dField o f, rest) := by
   have ht := fun g hg => pType_toks f.ty g rest hg h
@@ -168,28 +193,31 @@ theorem pField_toks (o : Opts) (ho : o.federation = false) (f : FieldDef) (hf : 
   have hdep := typeDepth_lt f.ty
   by_cases he : f.args = []
   · have hA : pArgsDef (.punct ':' :: (typeToks f.ty ++ rest)) = some ([], .punct ':' :: (typeToks f.ty ++ rest)) := rfl
-    simp only [pField, pDesc, fieldToks, he, List.isEmpty_nil, if_true, List.nil_append, List.cons_append, hA]
+    simp only [pField, fieldToks, fieldCore, he, List.isEmpty_nil, if_true, List.nil_append, List.cons_append,
+      List.append_assoc, pDesc_descToks, hA]
     rw [ht _ (by simp; omega)]
-    simp [hd, dField, hf.attrs.desc, dDirs_plain o ho _ hf.attrs, sorted, he]
+    simp [hd, dField, dDirs_plain o ho _ hf.attrs, sorted, he]
   · have hne : f.args.isEmpty = false := by simpa using he
     have hargs := pInputValues_toks o ho ')' (Or.inl rfl) (sorted o.sortedArgs (·.name) f.args)
       (sorted_ne_nil _ _ _ he) (fun x hx => hf.args x ((sorted_mem _ _ _ _).mp hx))
       (.punct ':' :: (typeToks f.ty ++ rest))
     have hlen := ivsToks_length (sorted o.sortedArgs (·.name) f.args)
-    simp only [pField, pDesc, fieldToks, hne, Bool.false_eq_true, if_false, List.cons_append, List.append_assoc,
-      List.nil_append, pArgsDef]
+    simp only [pField, fieldToks, fieldCore, hne, Bool.false_eq_true, if_false, List.cons_append, List.append_assoc,
+      List.nil_append, pDesc_descToks, pArgsDef]
     rw [hargs _ (by simp; omega)]
     simp only []
     rw [ht _ (by simp; omega)]
-    simp [hd, dField, hf.attrs.desc, dDirs_plain o ho _ hf.attrs]
-
+    simp [hd, dField, dDirs_plain o ho _ hf.attrs]
 
 def fieldsToks (o : Opts) (fs : List FieldDef) : List Tok := fs.flatMap (fieldToks o)
+
+theorem fieldToks_head (o : Opts) (f : FieldDef) (r : List Tok) : ItemHead (fieldToks o f ++ r) := by
+  simp only [fieldToks, fieldCore, List.append_assoc, List.cons_append]; exact descToks_head _ _ _
 
 theorem fieldsToks_end (o : Opts) (fs : List FieldDef) (r : List Tok) (h : TokEnd r) : TokEnd (fieldsToks o fs ++ r) := by
   cases fs with
   | nil => simpa [fieldsToks] using h
-  | cons x xs => simp only [fieldsToks, List.flatMap_cons, List.append_assoc, fieldToks, List.cons_append]; exact TokEnd.name _ _
+  | cons x xs => simp only [fieldsToks, List.flatMap_cons, List.append_assoc]; exact (fieldToks_head _ _ _).tokEnd
 
 theorem pFields_toks (o : Opts) (ho : o.federation = false) (fs : List FieldDef) (hne : fs ≠ [])
     (hfs : ∀ f ∈ fs, SkelField f) (rest : List Tok) :
@@ -210,10 +238,15 @@ theorem pFields_toks (o : Opts) (ho : o.federation = false) (fs : List FieldDef)
       | nil => simp
       | cons y ys =>
         have := ih (by simp) (fun z hz => hfs z (List.mem_cons_of_mem _ hz)) g (by simp at hg ⊢; omega)
-        obtain ⟨tl, htl⟩ : ∃ tl, fieldToks o y = .name y.name :: tl := ⟨_, rfl⟩
-        simp only [fieldsToks, List.flatMap_cons, List.append_assoc, htl, List.cons_append, List.map_cons] at this ⊢
-        simp [this]
+        simp only [fieldsToks, List.flatMap_cons, List.append_assoc, List.map_cons] at this ⊢
+        have hh := fieldToks_head o y (List.flatMap (fieldToks o) ys ++ .punct '}' :: rest)
+        generalize fieldToks o y ++ (List.flatMap (fieldToks o) ys ++ .punct '}' :: rest) = T at this hh ⊢
+        cases hh <;> simp [this]
 
+theorem fieldsToks_length (o : Opts) (fs : List FieldDef) : fs.length ≤ (fieldsToks o fs).length := by
+  induction fs with
+  | nil => simp
+  | cons x xs ih => simp [fieldsToks, fieldToks, fieldCore] at ih ⊢; omega
 
 -- ------------------------------------------------------------------ separated names
 
@@ -281,5 +314,52 @@ theorem pImplements_toks (impls : List Text) (rest : List Tok) :
   · have hne : impls.isEmpty = false := by simpa using he
     simp only [implToks, hne, Bool.false_eq_true, if_false, List.cons_append, pImplements, if_true]
     exact pNamesAfter_toks '&' impls he _ (by intro r e; cases e)
+
+-- ------------------------------------------------------------------ enum values
+
+structure SkelEnumVal (v : Text × Attrs) : Prop where
+  name : isName v.1 = true
+  notLit : v.1 ≠ kw "true" ∧ v.1 ≠ kw "false" ∧ v.1 ≠ kw "null"
+  attrs : PlainAttrs v.2
+
+def enumValToks (v : Text × Attrs) : List Tok := descToks v.2.desc ++ [Tok.name v.1]
+def enumToks (vs : List (Text × Attrs)) : List Tok := vs.flatMap enumValToks
+
+theorem enumValToks_head (v : Text × Attrs) (r : List Tok) : ItemHead (enumValToks v ++ r) := by
+  simp only [enumValToks, List.append_assoc, List.cons_append, List.nil_append]; exact descToks_head _ _ _
+
+theorem pEnumValues_toks (o : Opts) (ho : o.federation = false) (vs : List (Text × Attrs)) (hne : vs ≠ [])
+    (hvs : ∀ v ∈ vs, SkelEnumVal v) (rest : List Tok) :
+    ∀ g, vs.length ≤ g →
+      pEnumValues g (enumToks vs ++ .punct '}' :: rest) =
+        some (vs.map (fun v => (⟨v.1, v.2.desc, dDirs o v.2⟩ : SEnumVal)), rest) := by
+  induction vs with
+  | nil => exact absurd rfl hne
+  | cons v vs ih =>
+    intro g hg
+    cases g with
+    | zero => simp at hg
+    | succ g =>
+      have hv := hvs v List.mem_cons_self
+      have hdd := dDirs_plain o ho _ hv.attrs
+      cases vs with
+      | nil =>
+        have hd := constDirs_noAt (.punct '}' :: rest) (by intro r e; cases e)
+        simp only [enumToks, List.flatMap_cons, List.flatMap_nil, List.append_nil, enumValToks, List.append_assoc,
+          List.cons_append, List.nil_append, pEnumValues, pDesc_descToks]
+        simp [hv.notLit.1, hv.notLit.2.1, hv.notLit.2.2, hd, hdd]
+      | cons w ws =>
+        have := ih (by simp) (fun z hz => hvs z (List.mem_cons_of_mem _ hz)) g (by simp at hg ⊢; omega)
+        have hh := enumValToks_head w (enumToks ws ++ .punct '}' :: rest)
+        have hd := constDirs_noAt (enumValToks w ++ (enumToks ws ++ .punct '}' :: rest)) hh.tokEnd.noAt
+        simp only [enumToks, List.flatMap_cons, List.append_assoc, List.map_cons] at this hd hh ⊢
+        generalize enumValToks w ++ (List.flatMap enumValToks ws ++ .punct '}' :: rest) = T at this hd hh ⊢
+        simp only [enumValToks, List.append_assoc, List.cons_append, List.nil_append, pEnumValues, pDesc_descToks]
+        cases hh <;> simp [hv.notLit.1, hv.notLit.2.1, hv.notLit.2.2, hd, hdd, this]
+
+theorem enumToks_length (vs : List (Text × Attrs)) : vs.length ≤ (enumToks vs).length := by
+  induction vs with
+  | nil => simp
+  | cons x xs ih => simp [enumToks, enumValToks] at ih ⊢; omega
 
 end AGV.Lemmas.SdlSkeleton
